@@ -294,6 +294,16 @@ impl<'a> Exec<'a> {
             m_store(kind, &obs, mc, &mut v);
             self.stats.evaluations[17] += 1;
         }
+        if self.on(18) && keep && (kind == Kind::Req || kind == Kind::Resp) && matches!(obs.st, St::Partial | St::Err(_)) {
+            // what the next call on this kept value will see: a non-Complete call must leave the
+            // length of `headers` as it found it (restored by the init wrappers, untouched by the
+            // uninit ones), or the next outcome depends on this call having happened
+            let changed = if obs.uninit { !obs.headers_untouched } else { obs.hdr_len != obs.eff_cap };
+            if changed {
+                v.push(Violation { prop: 18, oracle: "history-leaves-capacity", detail: format!("after {:?} on a kept value `headers` has length {} (the call found {}): the next parse on this value sees a different capacity than a fresh value would", obs.st, obs.hdr_len, obs.eff_cap) });
+            }
+            self.stats.evaluations[18] += 1;
+        }
         if self.on(19) && spec.alloc_mode & 3 != 0 {
             m_alloc(&obs, &mut v);
             self.stats.evaluations[19] += 1;
